@@ -154,7 +154,23 @@ func (p *Pipe) RunCLIHow(it *Item, env []string, how string) {
 			args[a], args[b] = args[b], args[a]
 		}
 	}
-	out, err := load.Run(dir, false, 2*time.Minute, env, p.CLI, args...)
+	var out []byte
+	var err error
+	switch {
+	case how == "separate" || (how == "" && it.Prog.SeparateRuns):
+		// one invocation per declaration file, in order (what //go:generate kessoku $GOFILE does)
+		for _, a := range args {
+			o, e := load.Run(dir, false, 2*time.Minute, env, p.CLI, a)
+			out = append(out, o...)
+			if e != nil && err == nil {
+				err = e
+			}
+		}
+	case how == "last-alone":
+		out, err = load.Run(dir, false, 2*time.Minute, env, p.CLI, args[len(args)-1])
+	default:
+		out, err = load.Run(dir, false, 2*time.Minute, env, p.CLI, args...)
+	}
 	it.CLIOut, it.CLIErr = string(out), err
 	it.Elapsed = time.Since(t0)
 	it.GenSrc = map[string]string{}
